@@ -1,6 +1,7 @@
 package c13
 
 import (
+	"os"
 	"bytes"
 	"context"
 	"fmt"
@@ -113,11 +114,25 @@ func replySeg(c Case) func(kind byte, n int) agwsim.Seg {
 }
 
 func runConforming(c Case, st *stats) (string, string) {
-	sim, err := agwsim.Start(agwsim.Config{MaxFrame: c.MaxFrame, Paclen: c.Paclen, Drain: c.Drain, NulTerm: c.NulTerm, ReplySeg: replySeg(c)})
+	sim, err := agwsim.Start(agwsim.Config{MaxFrame: c.MaxFrame, Paclen: c.Paclen, Drain: c.Drain, NulTerm: c.NulTerm, ReplySeg: replySeg(c), DocYOrder: c.ReverseY})
 	if err != nil {
 		panic("harness: cannot start the TNC simulator: " + err.Error())
 	}
 	defer sim.Close()
+	// the option is read from the environment at every poll; cases run one after another in this process
+	if c.ReverseY {
+		os.Setenv("AGWPE_REVERSE_TO_FROM", "1")
+		st.label("option:AGWPE_REVERSE_TO_FROM(doc-order TNC)")
+		if c.Accept {
+			st.label("option:AGWPE_REVERSE_TO_FROM+inbound-connection")
+		}
+	} else {
+		os.Unsetenv("AGWPE_REVERSE_TO_FROM")
+	}
+	defer os.Unsetenv("AGWPE_REVERSE_TO_FROM")
+	if c.CtxCancel && !c.Accept {
+		st.label("dial:context-cancelled-after-connect")
+	}
 	r := &crun{c: c, sim: sim, st: st, cs: &connStream{}, knockers: map[string]bool{}}
 	r.cs.cond = sync.NewCond(&r.cs.mu)
 	hung, kind := harness.Watch(hangLimit(), func() { r.body() })
@@ -210,7 +225,13 @@ func (r *crun) body() {
 		}
 	} else {
 		r.setStage("dial")
-		if ps, pm := harness.Catch(func() { r.conn, err = r.tp.DialContext(context.Background(), c.Remote, c.Digis...) }); ps != "" {
+		ctx, cancel := context.Background(), context.CancelFunc(func() {})
+		if c.CtxCancel {
+			ctx, cancel = context.WithCancel(ctx)
+		}
+		ps, pm := harness.Catch(func() { r.conn, err = r.tp.DialContext(ctx, c.Remote, c.Digis...) })
+		cancel() // what "ctx, cancel := context.WithTimeout(...); defer cancel()" does once the dial has returned
+		if ps != "" {
 			r.conn = nil
 			r.v.set(ps, "DialContext(%q via %v) on port %d: %s", c.Remote, c.Digis, c.Port, pm)
 			return
@@ -927,6 +948,17 @@ func (r *crun) judgeHostFrames() {
 				r.v.set("host-frame-wrong-port", "frame on port %d, the registered port is %d: %s", f.Port, c.Port, f)
 				return
 			}
+		}
+		if f.Kind == 'Y' && c.ReverseY && r.knockers[f.From] && f.To == c.MyCall {
+			continue // a station that knocked while the connection was up started its (refused) link itself
+		}
+		if f.Kind == 'Y' && c.ReverseY && c.Accept && !r.knockers[f.From] && !r.knockers[f.To] {
+			// the option is set and the remote station started the connection: CallFrom = remote, CallTo = own call
+			if f.From != c.Remote || f.To != c.MyCall {
+				r.v.set("host-frame-wrong-calls", "AGWPE_REVERSE_TO_FROM is set and the connection was started by %q, but the Y query names the calls as from %q to %q: %s", c.Remote, f.From, f.To, f)
+				return
+			}
+			continue
 		}
 		switch f.Kind {
 		case 'X', 'x', 'C', 'v', 'c', 'D', 'd', 'Y', 'M':
